@@ -220,6 +220,8 @@ class Gen:
     def _v_newtype(self, t, d):
         return self.value(t[2], d)
 
+    _v_talias = _v_newtype
+
     def _v_self(self, t, d):
         return self.instance(self._cls_stack[-1], d - 1)
 
